@@ -182,11 +182,17 @@ def print_assumptions(prop, thms, workdir):
 
 # --------------------------------------------------------------------------- harness
 
-def build_harness():
+def harness_bin(prop):
+    return os.path.join(WORK, "harness-%s.bin" % prop)
+
+
+def build_harness(prop):
+    """One binary per property: common files + the files tagged `//go:build cxx` of that property,
+    so that a property file that does not compile (yet) cannot break the other checks."""
     hdir = os.path.join(VERIF, "harness")
     with Lock("harness"):
         run(["cp", os.path.join(REPO, "go.sum"), os.path.join(hdir, "go.sum")])
-        cmd = ["go", "build", "-tags", "verif", "-o", os.path.join(WORK, "harness.bin")]
+        cmd = ["go", "build", "-tags", "verif " + prop.lower(), "-o", harness_bin(prop)]
         if ALT:
             mod = open(os.path.join(hdir, "go.mod")).read().replace("=> /repo", "=> " + os.path.abspath(REPO))
             modfile = os.path.join(WORK, "harness.mod")
@@ -198,7 +204,7 @@ def build_harness():
 
 
 def run_harness(prop, tier, seed, outdir, extra=None, timeout=3000):
-    cmd = [os.path.join(WORK, "harness.bin"), prop, "-tier", tier, "-seed", str(seed), "-out", outdir]
+    cmd = [harness_bin(prop), prop, "-tier", tier, "-seed", str(seed), "-out", outdir]
     if extra:
         cmd += extra
     rc, out = run(cmd, cwd=os.path.join(VERIF, "harness"), env=GOENV, timeout=timeout)
@@ -332,7 +338,7 @@ def check(prop, tier, seed, cfg, replay=None):
             axioms = {}
             proofs_ok = False
 
-    ok, out = build_harness()
+    ok, out = build_harness(prop)
     result = None
     bad = []
     skipped = 0
